@@ -127,17 +127,18 @@ Theorem C16_declared_matched_do_match : forall prop_match fuel_of it filters tag
 Proof. exact declared_matched_do_match. Qed.
 Print Assumptions C16_declared_matched_do_match.
 
+(* `cal` and `t` are the name attributes as the client spelled them (any case: rawname) *)
 (* adding an always-true condition -- a prop-filter that matches everything appended to the component's
    comp-filter, or a second identical comp-filter -- never changes the result (the first makes the filter
    "not simple", i.e. switches the shortcut's declared-matched logic off) *)
 Theorem C16_always_true : forall prop_match fuel_of p, (forall it, prop_match p it = true) ->
-    forall t r rest items l,
+    forall cal t r rest items l,
       Forall (item_ok fuel_of) items ->
       (forall r', In (ETimeRange r') (ETimeRange r :: rest) -> range_ok r') ->
-      reference prop_match fuel_of (q_plain t r rest) items = Some l ->
-      report prop_match fuel_of (q_plain t r rest) items = Some l
-      /\ report prop_match fuel_of (q_prop p t r rest) items = Some l
-      /\ report prop_match fuel_of (q_twice t r rest) items = Some l.
+      reference prop_match fuel_of (q_plain cal t r rest) items = Some l ->
+      report prop_match fuel_of (q_plain cal t r rest) items = Some l
+      /\ report prop_match fuel_of (q_prop p cal t r rest) items = Some l
+      /\ report prop_match fuel_of (q_twice cal t r rest) items = Some l.
 Proof. exact always_true. Qed.
 Print Assumptions C16_always_true.
 
@@ -170,3 +171,18 @@ Theorem C16_get_filtered_expressions : forall tag comp simple istart iend start 
     /\ C16Gen.gf_matched simple istart iend start end_ = gf_matched simple istart iend start end_.
 Proof. exact get_filtered_expressions. Qed.
 Print Assumptions C16_get_filtered_expressions.
+
+(* Case folding: comp_match and simplify_prefilters read the name attribute of a comp-filter at three places; the
+   regenerated expressions all fold with str.upper(), so the shortcut and the full evaluation decide on the same
+   component name whatever the spelling ("vevent", "Vevent", "VEVENT").  C16_shortcut above quantifies over raw names. *)
+Theorem C16_name_folding : forall n,
+    C16Gen.comp_match_name n = Folded (upper n)
+    /\ C16Gen.prefilter_col_name n = Folded (upper n)
+    /\ C16Gen.prefilter_tag_name n = Folded (upper n).
+Proof. exact Gen_name_sites_eq. Qed.
+Print Assumptions C16_name_folding.
+
+Theorem C16_name_sites_agree : forall n,
+    C16Gen.comp_match_name n = C16Gen.prefilter_tag_name n /\ C16Gen.comp_match_name n = C16Gen.prefilter_col_name n.
+Proof. exact name_sites_agree. Qed.
+Print Assumptions C16_name_sites_agree.
